@@ -988,7 +988,7 @@ func c05Ladder(shape, k, bits int) core.Result {
 }
 
 // c05Needles: membership with needles whose text is empty (the empty string, null, false) and their neighbours, in lists
-// of 0..3 elements of the needle's own kind: found exactly when an element is the same value. kind 0 strings ('' a b),
+// of 0..3 elements of the needle's own kind: found exactly when an element is the same value. kind 0 strings (empty, a, b),
 // 1 numbers (0 1 2), 2 booleans, 3 null; code spells the list (length and elements); carrier 0 a literal list, 1 the
 // values of a literal hash, 2 a Go slice of the kind's type, 3 a []Value; the needle a literal (0) or a variable (1).
 var c05NeedleSrc = [][]string{{"''", "'a'", "'b'"}, {"0", "1", "2"}, {"false", "true"}, {"null"}}
